@@ -56,8 +56,14 @@ def generate(rng, tier='quick', **kw):
     ops.append({'t': round(t, 6), 'op': 'call', 'id': 'c%d' % i, 'timeout': to,
                 'svc': None if svc is None else round(max(svc, 0.0005), 6),
                 'kind': 'err' if rng.random() < 0.15 else 'ok'})
-  return {'world': 'w_pool', 'cfg': {'min': mn, 'max': mx, 'queue': queue}, 'conns': conns,
-          'ops': ops}
+  scn = {'world': 'w_pool', 'cfg': {'min': mn, 'max': mx, 'queue': queue}, 'conns': conns,
+         'ops': ops}
+  if rng.random() < 0.25:
+    # the way a balancer uses a pool: requests are routed to it as soon as it
+    # exists, while its Open() may still be connecting the first connection
+    scn['early'] = True
+    conns[0].update({'open_delay': rng.choice([0.01, 0.05]), 'open_sync': False})
+  return scn
 
 
 def simplify(scn):
@@ -213,7 +219,8 @@ class World(object):
         self.ghosts += 1      # may still occupy a queue slot until a release purges it
       if names[c.id] == 'MaxWaitersError' and c not in self.expect_reject:
         if prev and prev['clean'] and prev['pool_open'] and self.instant_stub_events == 0 \
-            and len(recent) == 1 and self.ghosts == 0 and self.issued_this_instant == 1:
+            and len(recent) == 1 and self.ghosts == 0 and self.issued_this_instant == 1 \
+            and prev['n_waiting'] < self.queue:
           REC.violation('C07', 'maxwaiters_spurious',
                         '%s failed with MaxWaitersError although only %d were waiting (max_queue_len=%s)' % (
                           c.id, prev['n_waiting'], self.cfg['queue']))
@@ -285,13 +292,55 @@ class World(object):
     pp.next_provider = self.provider
     tsp = TimeoutSinkProvider()
     tsp.next_provider = pp
+    if self.scn.get('early'):
+      from scales.asynchronous import AsyncResult
+      from scales.sink import ClientMessageSink, SinkProvider
+
+      class EagerOpen(ClientMessageSink):
+        """Stands in for a load balancer above the pool: reports itself open
+        at once and forwards requests while the pool below is still opening."""
+        def __init__(self, next_provider, sink_properties, global_properties):
+          super(EagerOpen, self).__init__()
+          self.next_sink = next_provider.CreateSink(global_properties)
+
+        def Open(self):
+          self.next_sink.Open()
+          return AsyncResult.Complete()
+
+        def Close(self):
+          self.next_sink.Close()
+
+        @property
+        def state(self):
+          return self.next_sink.state
+
+        def AsyncProcessRequest(self, sink_stack, msg, stream, headers):
+          self.next_sink.AsyncProcessRequest(sink_stack, msg, stream, headers)
+
+        def AsyncProcessResponse(self, sink_stack, context, stream, msg):
+          raise NotImplementedError()
+      ep_ = SinkProvider(EagerOpen)()
+      ep_.next_provider = pp
+      tsp.next_provider = ep_
     props = {SinkProperties.Label: 'svc', SinkProperties.ServiceInterface: None,
              SinkProperties.Endpoint: Endpoint('h', 1)}
     disp = MessageDispatcher(None, tsp, 5.0, props)
     self.pool = disp.next_sink.next_sink
+    if self.scn.get('early'):
+      self.pool = self.pool.next_sink
+    # the pool's behaviour after it has closed itself is out of scope (the stack
+    # replaces a closed pool); notice the close even if it re-opens at once
+    orig_close = self.pool.Close
+    world = self
+
+    def closing(*a, **kw):
+      world.pool_closed_seen = True
+      return orig_close(*a, **kw)
+    self.pool.Close = closing
     disp.Open().wait()
     self.loop.on_advance = self.settle
-    gevent.sleep(0.001)
+    if not self.scn.get('early'):
+      gevent.sleep(0.001)
     base = CLOCK.now
     for op in self.scn['ops']:
       dt = base + op['t'] - CLOCK.now
